@@ -29,8 +29,8 @@ const nTx = 6
 
 var (
 	P       *chainlab.Prelude
-	txs     []*types.Tx      // t1..t6
-	txIdx   map[bc.Hash]int  // tx id -> index
+	txs     []*types.Tx     // t1..t6
+	txIdx   map[bc.Hash]int // tx id -> index
 	outName map[bc.Hash]string
 	// reference description of the DAG, written down from the construction (not read back from the node)
 	inputs    [nTx][]bc.Hash // spent output ids, in input order
@@ -479,6 +479,8 @@ func sameSet(a map[int]bool, b map[int]bool) bool {
 
 type extra struct {
 	Mode string `json:"mode"` // "pool": TxPool.ProcessTransaction; "chain": Chain.ValidateTx
+	// RemoveOrphans also enables RemoveTransaction(ti) while ti is an orphan (must be ignored by the pool)
+	RemoveOrphans bool `json:"remove_orphans"`
 }
 
 func runHist(h []int, raw json.RawMessage) (out xplore.Out) {
@@ -644,7 +646,7 @@ func runHist(h []int, raw json.RawMessage) (out xplore.Out) {
 		}
 	}
 	for i := 0; i < nTx; i++ {
-		if m.pool[i] || m.isOrph(i) {
+		if m.pool[i] || (ex.RemoveOrphans && m.isOrph(i)) {
 			out.Enabled = append(out.Enabled, opRemove+i)
 		}
 	}
@@ -664,13 +666,13 @@ func main() {
 		xplore.Worker(spec)
 	}
 	run := ev.Start("C22", "model_checking")
-	depthPool := run.Pick(6, 8)
-	depthChain := run.Pick(4, 7)
+	depthPool := run.Pick(6, 12)
+	depthChain := run.Pick(3, 12)
 	spec.MaxDepth = depthPool
-	spec.Extra = extra{Mode: "pool"}
+	spec.Extra = extra{Mode: "pool", RemoveOrphans: run.Thorough()}
 	st := xplore.BFS(run, spec)
 	spec.MaxDepth = depthChain
-	spec.Extra = extra{Mode: "chain"}
+	spec.Extra = extra{Mode: "chain", RemoveOrphans: run.Thorough()}
 	st2 := xplore.BFS(run, spec)
 	run.Set("states", st.States+st2.States)
 	run.Set("transitions", st.Transitions+st2.Transitions)
@@ -682,6 +684,7 @@ func main() {
 	run.Set("depth_via_ProcessTransaction", depthPool)
 	run.Set("depth_via_ValidateTx", depthChain)
 	run.Set("max_depth", st.MaxDepth)
+	run.Set("remove_of_orphaned_tx_enabled", run.Thorough())
 	var ops []string
 	for o := 0; o < nOps; o++ {
 		ops = append(ops, opName(o))
